@@ -275,7 +275,7 @@ func init() {
 			"distinct = hash(input, read log); non-trivial = at least two non-empty chunks were delivered",
 		Assumptions:   []string{"Parse on the whole input is the reference", "thorough tier repeats the workload under the race detector build"},
 		MinNontrivial: 1000,
-		Race:          func(tier string) bool { return false },
+		RaceAlso:      func(tier string) bool { return tier == "thorough" },
 		Run: func(c *core.Ctx) {
 			var i int64
 			for _, s := range c07Fixed {
